@@ -126,6 +126,39 @@ func IsolationDual(name string, tags map[string]bool) *vtx.Profile {
 	}
 }
 
+// IsolationMultihomed: a stream listener bound to the unspecified address on a host with two addresses; c1 and c1m
+// have the same ip:port and user and are connected to the one and to the other server address: two 5-tuples that
+// differ in the server address only. c2 is an ordinary third client.
+func IsolationMultihomed(name string, tags map[string]bool) *vtx.Profile {
+	depth := 4
+	if rep.Thorough() {
+		depth = 5
+	}
+	cl := []string{"c1", "c1m", "c2"}
+
+	return &vtx.Profile{
+		Name: name, Configs: []vtx.Config{{Stream: true, Wild: true}}, Clients: cl, Peers: []string{"A", "B"}, Chans: []uint16{N1}, Depth: depth, Drain: true, Tags: tags,
+		Menu: func(m *vtx.Model, now time.Time, _ int) []vtx.Event {
+			var e []vtx.Event
+			for _, c := range cl {
+				if m.Gone[c] {
+					continue
+				}
+				if m.Allocs[c] == nil {
+					e = append(e, E("alloc", c, 0))
+				} else {
+					e = append(e, vtx.Event{K: "refresh", C: c, L: 0}, E("perm", c, 0, "A"), E("chan", c, N1, "B"))
+				}
+				if c != "c2" {
+					e = append(e, vtx.Event{K: "close-control", C: c, L: -1})
+				}
+			}
+
+			return append(e, vtx.AdvanceMenu(m, now, ns1, nil)...)
+		},
+	}
+}
+
 // IsolationFamily: two clients whose source addresses differ only in address
 // family representation (10.0.0.2:4000 and [::10.0.0.2]:4000, the deprecated
 // IPv4-compatible form), [0a00:0002::]:4000 (the IPv4 bytes at the head of an IPv6 address) plus one on
